@@ -29,6 +29,8 @@ def main():
     demo = os.path.join(os.path.abspath(a.mdir), 'demo.py')
     res = {'mutant': a.mdir}
     sh(['git', 'checkout', '--', '.'], cwd=a.wt)
+    head = sh(['git', '-C', '/repo', 'rev-parse', 'HEAD'])[1].strip()
+    sh(['git', 'checkout', '-q', '--detach', head], cwd=a.wt)      # scratch tree = /repo's current HEAD
     rc, out = sh(['git', 'status', '--porcelain', '--untracked-files=no'], cwd=a.wt)
     assert out.strip() == '', 'worktree not clean: ' + out
     if a.confirm:
